@@ -321,8 +321,10 @@ Proof.
             end); [exact H6'|].
   destruct restore as [[n ex]|].
   - pose proof (srv_restore_ps c6 n an ex) as H7. destruct (srv_restore c6 n an ex) as [c7 ok7]. cbn [fst] in H7.
-    cbn [l_cell set]. eapply ps_trans; [exact H6'|]. eapply ps_trans; [exact H7|apply ps_one, PS_soft, soft_renew].
-  - cbn [l_cell set]. eapply ps_trans; [exact H6'|apply ps_one, PS_release].
+    destruct ok7; [|unfold give_up]; cbn [l_cell set]; (eapply ps_trans; [exact H6'|]).
+    + eapply ps_trans; [exact H7|apply ps_one, PS_soft, soft_renew].
+    + eapply ps_trans; [exact H7|apply ps_one, PS_release].
+  - unfold give_up. cbn [l_cell set]. eapply ps_trans; [exact H6'|apply ps_one, PS_release].
 Qed.
 
 Lemma find_placements_ps c q ch : psteps c (find_placements c q ch).
